@@ -146,6 +146,11 @@ def do_handshake(sock, on_done=None, on_error=None, extra_args=None):
             else:
                 callable(on_error) and on_error(sock, err)
                 return
+        except OSError as err:
+            # (the peer reset or closed the connection during the handshake:
+            # a failed handshake like any other)
+            callable(on_error) and on_error(sock, err)
+            return
 
         yield
 
